@@ -621,6 +621,94 @@ def rule_r10(ctx) -> List[R.Inst]:
     return [R.ok(rid, "position-table", file, fn.node.lineno, idiom=f"{sorted(cons)} all feed {keys}")]
 
 
+def rule_r11(ctx) -> List[R.Inst]:
+    """tokenising: a comment runs from `//` to the end of its line wherever it stands, so comments must be removed BEFORE the
+    text is cut at the structural characters `;` `:` `,`; rows are the non-blank lines with surrounding whitespace removed; a
+    file without #OFFSET starts at 0"""
+    M = ctx.M
+    rid = "C02.R11"
+    insts = []
+    fn = M.fn("reamber.sm.SMMapSet.SMMapSet.read")
+    file = M.mods[fn.mod].rel
+    # (a) the first split(";") acts on comment-free text
+    splits = [n for n in walk_no_nested(fn.node) if isinstance(n, ast.Call) and isinstance(n.func, ast.Attribute) and n.func.attr == "split"
+              and n.args and isinstance(n.args[0], ast.Constant) and n.args[0].value == ";"]
+    if not splits:
+        insts.append(R.undec(rid, "comments-first", file, fn.node.lineno, "split(';') not found"))
+    else:
+        sp = min(splits, key=lambda n: n.lineno)
+        recv = sp.func.value
+        stripped = False
+        seen = set()
+        cur = recv
+        for _ in range(6):
+            if isinstance(cur, ast.Call) and call_name_(cur) == "sub" and cur.args and isinstance(cur.args[0], ast.Constant) and \
+                    isinstance(cur.args[0].value, str) and cur.args[0].value.startswith("//"):
+                stripped = True
+                break
+            if isinstance(cur, ast.Call) and isinstance(cur.func, (ast.Name, ast.Attribute)) and "comment" in unparse(cur.func).lower():
+                stripped = True
+                break
+            if isinstance(cur, ast.Name) and cur.id not in seen:
+                seen.add(cur.id)
+                ds = [n for n in walk_no_nested(fn.node) if isinstance(n, ast.Assign) and isinstance(n.targets[0], ast.Name) and
+                      n.targets[0].id == cur.id and n.lineno < sp.lineno]
+                if not ds:
+                    break
+                # the latest definition before the split; an earlier one may be the comment removal the later one builds on
+                for d_ in sorted(ds, key=lambda n: -n.lineno):
+                    if any(isinstance(x, ast.Call) and call_name_(x) == "sub" and x.args and isinstance(x.args[0], ast.Constant) and
+                           isinstance(x.args[0].value, str) and x.args[0].value.startswith("//") for x in ast.walk(d_.value)):
+                        stripped = True
+                if stripped:
+                    break
+                cur = sorted(ds, key=lambda n: -n.lineno)[0].value
+                continue
+            break
+        if stripped:
+            insts.append(R.ok(rid, "comments-first", file, sp.lineno, idiom="// comments removed before the text is cut at ';'"))
+        else:
+            insts.append(R.viol(rid, "comments-first", file, sp.lineno,
+                                "the text is cut at ';' (and later at ':' and ',') with its comments still in it: a comment that contains one "
+                                "of these characters ('// measure 2: verse', '// a, b', '// x; y') is taken for structure — the chart is "
+                                "truncated, shifted by a measure or unreadable; an inline comment after a row discards the row",
+                                construct="split(';') before comment removal"))
+    # (b) rows: stripped, blank ones dropped
+    rn = M.fn(READ_NOTES)
+    file2 = M.mods[rn.mod].rel
+    comps = [n for n in ast.walk(rn.node) if isinstance(n, ast.ListComp) and any(
+        isinstance(g.iter, ast.Call) and isinstance(g.iter.func, ast.Attribute) and g.iter.func.attr == "split" and g.iter.args and
+        isinstance(g.iter.args[0], ast.Constant) and g.iter.args[0].value == "," for g in n.generators)]
+    if not comps:
+        insts.append(R.undec(rid, "rows-stripped", file2, rn.node.lineno, "measure / row comprehension not found"))
+    else:
+        txt = unparse(comps[0])
+        ok_ = ".strip()" in txt or "str.strip" in txt or "splitlines" in txt and ".strip" in txt
+        insts.append(R.ok(rid, "rows-stripped", file2, comps[0].lineno, idiom="rows are stripped before blank ones are dropped") if ok_ else
+                     R.viol(rid, "rows-stripped", file2, comps[0].lineno,
+                            "rows are the raw pieces of split('\\n'): a whitespace-only line counts as a row, an indented row has its "
+                            "indentation read as columns, and the '\\r' of CRLF text makes blank lines count — every later row of the "
+                            "measure is misplaced", construct="rows not stripped"))
+    # (c) #OFFSET omitted
+    meta = S.SET_META
+    dflt = None
+    for st in M.classes[meta].node.body:
+        if isinstance(st, ast.AnnAssign) and isinstance(st.target, ast.Name) and st.target.id == "offset":
+            dflt = st.value
+    rm = M.fn(meta + "._read_metadata")
+    defaulted = any(isinstance(n, ast.If) and "offset" in unparse(n.test) and "None" in unparse(n.test) and any(
+        isinstance(x, ast.Assign) and unparse(x.targets[0]).endswith(".offset") for x in n.body)
+        for f_ in (rm, fn) for n in ast.walk(f_.node))
+    numeric = isinstance(dflt, ast.Constant) and isinstance(dflt.value, (int, float)) and not isinstance(dflt.value, bool)
+    if numeric or defaulted:
+        insts.append(R.ok(rid, "offset-default", M.mods[rm.mod].rel, rm.node.lineno, idiom="a file without #OFFSET starts at 0"))
+    else:
+        insts.append(R.viol(rid, "offset-default", M.mods[rm.mod].rel, rm.node.lineno,
+                            "'offset' stays None unless the file has an #OFFSET tag and is then used as the initial offset of the timing "
+                            "map: a file without #OFFSET (StepMania reads it as 0) raises TypeError", construct="offset default None reaches the timing map"))
+    return insts
+
+
 def rule_dep(ctx):
     """obligations inherited from shared code reached through the call graph (sa/props/deps.py)"""
     from .deps import dep_insts
@@ -638,6 +726,7 @@ SPECS = [
     RuleSpec("C02.R9", rule_r9, 4, "A7", "row position shapes: beat slice bounds, fraction inside the beat, Snap arguments"),
     RuleSpec("C02.R8", rule_r8, 6, "A3", "every chart gets its own list objects (fresh defaults per instance)"),
     RuleSpec("C02.R10", rule_r10, 1, "A8", "every collected position is put into the position -> ms table the expanders look up"),
+    RuleSpec("C02.R11", rule_r11, 3, "A8", "comments removed before structural splits; rows stripped; #OFFSET defaults to 0"),
     RuleSpec("C02.D", rule_dep, 1, "M0", "rules of the shared code (timing engine, list classes, stacker) that the operations of this property reach"),
 ]
 
